@@ -196,6 +196,9 @@ func resetCaches() {
 	inlineCache = map[inlineKey]inlineRes{}
 	reachEffCache = map[string]map[*ssaFunc]bool{}
 	sentinelCache = map[*ssa.Global]int{}
+	perCallCache = map[string]bool{}
+	soleStoreCache = map[string]*ssa.Store{}
+	soleStoreDone = map[string]bool{}
 }
 
 func dumpFunc(p *Prog, name string) {
